@@ -642,7 +642,8 @@ class AssembleSuite(Suite):
 SUITES = [BranchSuite(), TreeSuite(), PairSuite(), AssembleSuite()]
 TECHNIQUE = ("Lean 4 theorems over ℚ about the models of np.interp / linspace (end points, equal steps no longer than the spacing, every sample a convex combination "
              "of two consecutive originals, radii by the same interpolation; over ℝ with the Euclidean norm: the polyline through the samples of both resamplers is no longer than the original, for any sorted abscissae), of the smoother (end points, count) and of the re-assembly rule (no interior sample "
-             "lost; the greedy branch/child pairing returns a perfect matching at distance 0, also when sister branches end at one point) + differential correspondence with tolerance + an oracle that walks the original polyline by arc length")
+             "lost; the greedy branch/child pairing returns a perfect matching at distance 0, also when sister branches end at one point; the table the assembler builds (explicit stack, id allocation) equals a structural recursion over the branch tree and is, for every branch tree, sample counts and pairing order, a parent-before-child tree table in which each branch is a chain of its samples between the copies of its key nodes) "
+             "+ differential correspondence with tolerance (assembled parent column: exactly) + an oracle that walks the original polyline by arc length")
 LEVEL_TEXT = ("Kernel-checked over the rationals: the resampling positions start at 0, end at the branch length, are equally spaced with step ≤ the requested spacing, "
               "their number is ⌈L/d⌉+1; interpolation returns the first/last original at the ends and otherwise a convex combination of two consecutive originals "
               "(for coordinates and radii alike); in Euclidean 3-space (real square roots) a resampled branch is never longer than the original branch, for every spacing, both gap modes and every point count; smoothing keeps end points and node count; the re-assembly keeps every interior sample exactly once; the assembler's greedy pairing returns every branch once and every child once, each branch with a child lying exactly at its end point (whatever the order, also when several children lie at one place).")
